@@ -101,7 +101,7 @@ def rows(prop, engines=('map', 'set')):
 
 HIST_RULE = ('Iterators are consumed by plain next() loops and, in dedicated adaptor steps, through nth / skip / step_by / last / fold / count / for_each / take / by_ref. Cases are monitored steps of random operation histories (8..96 steps, workload profiles uniform / fill / '
              'churn-at-full / drain-down / revisit) started from an empty container, for capacities N in {0,1,2,3,4,8} and, for the Copy family, 40 and 70 (beyond the 32- and 64-slot marks) '
-             '(thorough adds 5,16,32) and the element families named in each job; after every step a full observation sweep '
+             '(thorough adds 5,16,32; one Copy history in 1200 runs at N = 300, slot numbers beyond one byte) and the element families named in each job (track = ledger-tracked, tiny = one-byte key with its own ==, word = four-byte key with its own == and a niche value, align = 64-/32-byte aligned pairs); after every step a full observation sweep '
              'compares the real container with the reference model. A case is non-trivial when the pre-state is non-empty or '
              'the operation mutates.')
 
@@ -109,22 +109,22 @@ ALLCAPS = '0,1,2,3,4,5,8,16,32,40,70'
 
 
 def _c01(tier):
-    a = '--fam track,copy,raw,zst,nodrop' + (' --caps ' + ALLCAPS if tier == 'thorough' else '')
-    m = '--fam track,raw --caps 0,1,2,3,4 --max-steps 48'
+    a = '--fam track,track,copy,raw,zst,nodrop,tiny,word,align' + (' --caps ' + ALLCAPS if tier == 'thorough' else '')
+    m = '--fam track,track,raw,align,tiny --caps 0,1,2,3,4 --max-steps 48'
     raw = '--fam raw --caps 0,1,2,3,4,8 --no-forget'
     return hist_jobs('C01', tier, a, a, engines=('map',), std=True, miri=(16, 150, 1500, {'map': m}), asan=(8, 2_000_000, {'map': raw}))
 
 
 def _c07(tier):
-    a = '--fam track,copy,raw,zst,nodrop' + (' --caps ' + ALLCAPS if tier == 'thorough' else '')
-    m = '--fam track,raw --caps 0,1,2,3,4 --max-steps 48'
+    a = '--fam track,track,copy,raw,zst,nodrop,tiny,word,align' + (' --caps ' + ALLCAPS if tier == 'thorough' else '')
+    m = '--fam track,track,raw,align,tiny --caps 0,1,2,3,4 --max-steps 48'
     raw = '--fam raw --caps 0,1,2,3,4,8 --no-forget'
     return hist_jobs('C07', tier, a, a, engines=('set',), std=True, miri=(16, 150, 1500, {'set': m}), asan=(8, 2_000_000, {'set': raw}))
 
 
 def _mem_hist(prop, tier, fam='track,copy', miri_steps=(260, 2500), vg=True, asan=True, mirirel=False, engines=('map', 'set')):
     a = '--fam ' + fam + (' --caps ' + ALLCAPS if tier == 'thorough' else '')
-    m = '--fam track,raw --caps 0,1,2,3,4 --max-steps 48'
+    m = '--fam track,track,raw,align,tiny --caps 0,1,2,3,4 --max-steps 48'
     margs = {'map': m, 'set': m}
     raw = '--fam raw --caps 0,1,2,3,4,8 --no-forget'
     return hist_jobs(prop, tier, a, a, engines=engines,
@@ -139,7 +139,7 @@ def _simple_hist(prop, tier, fam='track,copy', engines=('map', 'set'), miri=None
     raw = '--fam raw --caps 0,1,2,3,4,8 --no-forget'
     mm = None
     if miri:
-        m = '--fam track --caps 0,1,2,3,4 --max-steps 48'
+        m = '--fam track,track,align,tiny --caps 0,1,2,3,4 --max-steps 48'
         mm = (16, miri[0], miri[1], {'map': m, 'set': m})
         if tier == 'quick' and not miri[2]:
             mm = None
@@ -196,15 +196,24 @@ plan('C02', jobs=_c02, rule=HIST_RULE + ' Consuming iterators and drains are aba
      level_note='Trusted: ledger + instrumented elements; Miri/ASan/valgrind as detectors on executed paths. Miri depth is thousands of steps, native depth millions.',
      design_ref='DESIGN.md section 3, C02')
 
-plan('C05', jobs=lambda t: _simple_hist('C05', t, fam='track,copy,zst', miri=(150, 1500, True)), rule=HIST_RULE + ' The well-formedness oracle uses no model: it only observes len/is_empty/capacity/iter/get.',
-     required=rows('C05'),
+def _c05(tier):
+    jobs = _simple_hist('C05', tier, fam='track,track,copy,zst,tiny,word,align', miri=(150, 1500, True))
+    # deserialisation is an operation too (feature serde): payloads that micromap did not write - sequences of
+    # pairs / elements with repeats, with and without an announced length - must leave a well-formed container
+    jobs.append(J('C05', 'dbg/serde-foreign', 'dbg-serde', 'eng_serde', '', 4, q(tier, 12_000, 600_000), covp='sd/'))
+    jobs.append(J('C05', 'rel/serde-foreign', 'rel-serde', 'eng_serde', '', 4, q(tier, 24_000, 2_000_000), covp='sd/'))
+    return jobs
+
+
+plan('C05', jobs=_c05, rule=HIST_RULE + ' The well-formedness oracle uses no model: it only observes len/is_empty/capacity/iter/get. The sd/ jobs (feature serde) decode payloads micromap did not write (repeated keys, with and without a length prefix, recorded streams and bincode) and observe the decoded container the same way.',
+     required=rows('C05') + ['sd/foreign-payload:map:repeated-keys', 'sd/foreign-payload:set:repeated-elements'],
      title='well-formedness after every step',
      technique='runtime monitoring: model-free invariant monitor (keys pairwise unequal, len == iteration count, is_empty, len <= capacity, every yielded key looks up its own value) evaluated at every quiescent point, including after container-raised panics',
      level_text='Exploration: a model-free well-formedness observer runs after every step of the Map, Set and entry histories, including steps that ended in a panic raised by the container (overflow, missing index).',
      level_note='Uniqueness is judged with the lawful == of the instrumented keys. Finite sample of histories.',
      design_ref='DESIGN.md section 3, C05')
 
-plan('C09', jobs=lambda t: _simple_hist('C09', t, fam='track,copy,zst', miri=(150, 1500, True)), rule=HIST_RULE + ' An iterator probe walks one borrowing iterator kind completely, checking len/size_hint/count before every step, a clone at a random step, fusedness, a second traversal and write visibility.',
+plan('C09', jobs=lambda t: _simple_hist('C09', t, fam='track,track,copy,zst,tiny,align', miri=(150, 1500, True)), rule=HIST_RULE + ' An iterator probe walks one borrowing iterator kind completely, checking len/size_hint/count before every step, a clone at a random step, fusedness, a second traversal and write visibility.',
      required=rows('C09'),
      title='borrowing iterators',
      technique='runtime monitoring: per-step exactness monitor on iter/iter_mut/keys/values/values_mut/Set::iter over states reached by random histories (identity-level comparison through ledger ids)',
@@ -212,7 +221,7 @@ plan('C09', jobs=lambda t: _simple_hist('C09', t, fam='track,copy,zst', miri=(15
      level_note='Finite sample of states; iterator kinds enumerated completely.',
      design_ref='DESIGN.md section 3, C09')
 
-plan('C10', jobs=lambda t: _mem_hist('C10', t, fam='track,copy,zst', miri_steps=(200, 2000), asan=True, vg=True), rule=HIST_RULE + ' Every drain / consuming iterator is cut at a random j in 0..=len+1 and then dropped or forgotten.',
+plan('C10', jobs=lambda t: _mem_hist('C10', t, fam='track,track,copy,zst,tiny,align', miri_steps=(200, 2000), asan=True, vg=True), rule=HIST_RULE + ' Every drain / consuming iterator is cut at a random j in 0..=len+1 and then dropped or forgotten.',
      required=rows('C10'), assumptions=NATIVE_ASSUME + SAN_ASSUME,
      title='consuming iterators and drain',
      technique='runtime monitoring: identity-level permutation monitor + exact-length monitor on into_iter/into_keys/into_values/drain (Map and Set) cut at every point, ledger for the non-yielded remainder, Miri on the same workload',
@@ -220,7 +229,7 @@ plan('C10', jobs=lambda t: _mem_hist('C10', t, fam='track,copy,zst', miri_steps=
      level_note='For a forgotten drain only safety and well-formedness are demanded (the property promises nothing more).',
      design_ref='DESIGN.md section 3, C10')
 
-plan('C12', jobs=lambda t: _simple_hist('C12', t, fam='track,large,nodrop', miri=(150, 1500, True)), rule=HIST_RULE + ' Keys of one class carry distinct tags, so the stored key object is identifiable; half of the inserting operations reuse a present class with a fresh tag.',
+plan('C12', jobs=lambda t: _simple_hist('C12', t, fam='track,track,large,nodrop,tiny,word,align', miri=(150, 1500, True)), rule=HIST_RULE + ' Keys of one class carry distinct tags, so the stored key object is identifiable; half of the inserting operations reuse a present class with a fresh tag.',
      required=rows('C12'),
      title='stored-key identity',
      technique='runtime monitoring: identity (tag + ledger id) sweep of the stored key object after every step, against a model that tracks which key object must be stored',
@@ -228,7 +237,7 @@ plan('C12', jobs=lambda t: _simple_hist('C12', t, fam='track,large,nodrop', miri
      level_note='Finite sample of histories; identity observable only for the tracked families.',
      design_ref='DESIGN.md section 3, C12')
 
-plan('C15', jobs=lambda t: _simple_hist('C15', t, fam='track,large,nodrop,copy,zst', miri=(150, 1500, True)), rule=HIST_RULE + ' A fork step clones the container inside a ledger event window; both copies then continue with independent random suffixes and are swept after every step.',
+plan('C15', jobs=lambda t: _simple_hist('C15', t, fam='track,track,large,nodrop,copy,zst,word,align', miri=(150, 1500, True)), rule=HIST_RULE + ' A fork step clones the container inside a ledger event window; both copies then continue with independent random suffixes and are swept after every step.',
      required=rows('C15'),
      title='clone',
      technique='runtime monitoring: ledger event window around clone() (exactly one Clone event per stored key and value, nothing else), then twin histories with cross-talk sweeps of both copies after every step',
@@ -237,7 +246,7 @@ plan('C15', jobs=lambda t: _simple_hist('C15', t, fam='track,large,nodrop,copy,z
      design_ref='DESIGN.md section 3, C15')
 
 def _c19(tier):
-    jobs = _simple_hist('C19', tier, fam='track,copy,raw,zst', miri=(150, 1500, True))
+    jobs = _simple_hist('C19', tier, fam='track,track,copy,raw,zst,tiny,align', miri=(150, 1500, True))
     jobs += [
         J('C19', 'dbg/algebra', 'dbg', 'eng_algebra', '--universe 4', 4, 1, covp='alg/'),
         J('C19', 'rel/algebra', 'rel', 'eng_algebra', '--universe 4', 4, 1, covp='alg/'),
@@ -381,6 +390,8 @@ def _c14(tier):
         J('C14', 'rel/u4', 'rel', 'eng_eq', '--random %d' % q(tier, 20000, 2000000), 8, 1, exh=True),
     ]
     jobs.append(J('C14', 'miri/u3', 'miri', 'eng_eq', '--tiny', 8, 1, light=True, timeout=q(tier, 1500, 7200)))
+    # operands produced by deserialisation (feature serde), incl. payloads with repeated keys
+    jobs.append(J('C14', 'dbg/serde-operands', 'dbg-serde', 'eng_serde', '', 4, q(tier, 12_000, 600_000), covp='sd/'))
     return jobs
 
 
